@@ -35,6 +35,7 @@ import Drivers.PartMeshb
 import Drivers.InterpLocate
 import Drivers.PhysDist
 import Drivers.MetricPipe
+import Drivers.Formats
 
 /-! `refdrv <driver> [args]` : dispatch to a line-protocol driver. One match arm per driver, on one line. -/
 
@@ -75,6 +76,7 @@ def main (args : List String) : IO UInt32 := do
   | "interplocate" :: rest => Drivers.InterpLocate.run rest
   | "physdist" :: rest => Drivers.PhysDist.run rest
   | "metricpipe" :: rest => Drivers.MetricPipe.run rest
+  | "formats" :: rest => Drivers.Formats.run rest
   | _ =>
     IO.eprintln s!"refdrv: unknown driver {args}"
     return 2
